@@ -742,6 +742,11 @@ class IteratorQueue(IterableQueue[_ValueT]):
         _release_and_notify(
             self._states_lock, notify=self._dequeue_lock, notify_all=True
         )
+        # Also wake up the enqueuers blocked on a full queue, e.g., when the
+        # enqueue is done because another enqueuer failed.
+        _release_and_notify(
+            self._states_lock, notify=self._enqueue_lock, notify_all=True
+        )
         logging.debug(
             'chainable: %s', f'"{self.name}" enqueue done, notify all'
         )
